@@ -17,7 +17,7 @@
 (* may be missing over the whole interval.  Extra listed primes and        *)
 (* unreported positions are not part of the guarantee.                     *)
 (***************************************************************************)
-EXTENDS TraceLib, FiniteSets
+EXTENDS TraceLib, FiniteSets, SequencesExt
 VARIABLES l, st
 
 BS == 32768
@@ -36,7 +36,32 @@ LostOf(novf) ==
   [c \in TableClasses |->
      SumSeq([k \in 1..Len(novf) |-> IF novf[k].log = c THEN Max2(0, novf[k].n - novf[k].slots) ELSE 0])]
 
-Init0 == [ps |-> <<>>, r1 |-> <<>>, r2 |-> <<>>, lost |-> Zero3, used |-> Zero3, check |-> "all"]
+\* ---- the loss the bucket tables can have, computed from the INPUTS (root tables), not from the sieve's counters:
+\* a table of class c holds, per bucket of `bw` positions, `cap` hits; further hits go to `slots` overflow records
+\* (table-wide) and only what exceeds those is dropped.  (bw, cap, slots are read from the code, so a re-tuned
+\* table changes nothing here.)  Counting walks every hit of every prime of the class; for very large inputs the
+\* sieve's own counters are used instead (HitsBudget).
+HitsBudget == 14000
+ClassSeq(ps, c) == SelectSeq([j \in 1..Len(ps) |-> j], LAMBDA j : BitLenInt(ps[j]) = c)
+AddHits(cnt, p, r, L, bw) ==
+  IF r >= L THEN cnt
+  ELSE FoldLeft(LAMBDA c2, k : [c2 EXCEPT ![(r + (k - 1) * p) \div bw] = @ + 1], cnt, [k \in 1..(((L - 1 - r) \div p) + 1) |-> k])
+BucketCounts(ps, r1, r2, c, L, bw) ==
+  FoldLeft(LAMBDA cnt, j : AddHits(AddHits(cnt, ps[j], r1[j], L, bw), ps[j], r2[j], L, bw),
+           [b \in 0..((L \div bw) - 1) |-> 0], ClassSeq(ps, c))
+TrueLost(ps, r1, r2, c, L, bw, cap, slots) ==
+  LET cnt == BucketCounts(ps, r1, r2, c, L, bw)
+      ovf == FoldLeft(LAMBDA a, b : a + Max2(0, cnt[b - 1] - cap), 0, [b \in 1..(L \div bw) |-> b])
+  IN Max2(0, ovf - slots)
+SlotsOf(novf, c) == LET k == SelectSeq([i \in 1..Len(novf) |-> i], LAMBDA i : novf[i].log = c)
+                    IN IF k = <<>> THEN 0 ELSE novf[k[1]].slots
+Computable(ps, nb) == \A c \in TableClasses : Len(ClassSeq(ps, c)) * nb <= HitsBudget
+LostFromInputs(ps, e, nb) ==
+  [c \in TableClasses |->
+     IF SlotsOf(e.novf, c) = 0 THEN 0
+     ELSE TrueLost(ps, e.r1, e.r2, c, nb * BS, e.bw, e.bcap, SlotsOf(e.novf, c))]
+
+Init0 == [ps |-> <<>>, r1 |-> <<>>, r2 |-> <<>>, lost |-> Zero3, used |-> Zero3, check |-> "all", nb |-> 1]
 
 \* prime indices (1-based) examined for each report: all of them, or for the largest bases all primes
 \* of the bucket classes and one in eight of the others
@@ -63,7 +88,9 @@ RootTablesOK(s, e) ==
 Apply(s, e) ==
   CASE e.op = "fb" -> [Init0 EXCEPT !.ps = e.primes, !.check = e.check]
     [] e.op \in {"new", "rehash"} /\ ~Has(e, "outcome") ->
-         [s EXCEPT !.r1 = e.r1, !.r2 = e.r2, !.lost = LostOf(e.novf), !.used = Zero3]
+         LET nb == IF e.op = "new" THEN e.nblocks ELSE s.nb IN
+         [s EXCEPT !.r1 = e.r1, !.r2 = e.r2, !.nb = nb, !.used = Zero3,
+                   !.lost = IF Computable(s.ps, nb) THEN LostFromInputs(s.ps, e, nb) ELSE LostOf(e.novf)]
     [] e.op = "block" /\ ~Has(e, "outcome") ->
          [s EXCEPT !.used = [c \in TableClasses |-> s.used[c] + MissCount(s, e, c)]]
     [] OTHER -> s
@@ -74,6 +101,12 @@ ReportComplete(s, e) ==
   IN /\ e.b < 65536
      /\ \A j \in AllMissing(s, e) : BitLenInt(s.ps[j]) \in TableClasses
      /\ \A c \in TableClasses : s2.used[c] <= s.lost[c]
+
+\* ModelC13 (drift only): the sieve's own overflow counters account for exactly the computed loss
+CountersAgree(s, e) ==
+  (e.op \in {"new", "rehash"} /\ ~Has(e, "outcome")) =>
+     LET nb == IF e.op = "new" THEN e.nblocks ELSE s.nb
+     IN Computable(s.ps, nb) => LostFromInputs(s.ps, e, nb) = LostOf(e.novf)
 
 Ok(s, e) ==
   CASE e.op = "fb" -> Len(e.primes) > 0
@@ -91,6 +124,7 @@ TolNote(i, s, e) ==
 
 Next == /\ l <= NRec /\ l' = l + 1
         /\ Strict(l, Rec[l].op, Accept(st, Rec[l]))
+        /\ Drift(l, "overflow-counters", CountersAgree(st, Rec[l]))
         /\ TolNote(l, st, Rec[l])
         /\ st' = Apply(st, Rec[l])
 Spec == Init /\ [][Next]_<<l, st>>
